@@ -265,7 +265,7 @@ pub fn run(a: &Args) {
     r.emit();
     if a.shard == 0 {
         let mut r = Rep::new("C08", "table");
-        table_checks(&mut r);
+        guarded(&mut r, "C08|PageTable|unexpected-panic", || "table".into(), |r| table_checks(r));
         r.exhaustive = true;
         r.sample("table slot 511 path 2 (iter_mut) read back through [usize], [PageTableIndex], iter, raw LE bytes".into());
         r.emit();
